@@ -287,6 +287,11 @@ LOCSCALE = [
     ("normal_var", "x = 0\ny = 1\nwhile true:\n    y = 1 {1/2} 2\n    x = Normal(x, y**2)\nend\n", ["x", "y"]),
     ("uniform", "x = 0\ny = 1\nwhile true:\n    y = y + 1 {1/2} y\n    x = Uniform(y, y + w)\nend\n", ["x", "y"]),
     ("uniform2", "x = 0\ny = 1\nwhile true:\n    x = Uniform(a*x, 2*y + 3)\nend\n", ["x", "y"]),
+    ("uniform_additive_lower", "x = 0\ny = 1\nwhile true:\n    y = 1 {1/2} 2\n    x = Uniform(y - 1, y + 1)\nend\n", ["x", "y"]),
+    ("uniform_additive_both", "x = 0\ny = 1\nwhile true:\n    y = 1 {1/2} 2\n    x = Uniform(c + y - x, 2*y + x + 3)\nend\n", ["x", "y"]),
+    ("normal_additive", "x = 0\ny = 1\nwhile true:\n    y = 1 {1/2} 2\n    x = Normal(y - x + 1, y + 1)\nend\n", ["x", "y"]),
+    ("laplace_additive", "x = 0\ny = 1\nwhile true:\n    y = 1 {1/2} 2\n    x = Laplace(1 - y + x, 2)\nend\n", ["x", "y"]),
+    ("exponential_sum", "x = 0\ny = 1\nwhile true:\n    y = 1 {1/2} 2\n    x = DistExp(1/(y + x**2 + 1))\nend\n", ["x", "y"]),
     ("laplace", "x = 0\ny = 1\nwhile true:\n    y = y + 1 {1/2} y\n    x = Laplace(c*y - x, b)\nend\n", ["x", "y"]),
     ("exponential", "x = 0\ny = 1\nwhile true:\n    y = 1 {1/2} 2\n    x = DistExp(1/y)\nend\n", ["x", "y"]),
     ("exponential2", "x = 0\ny = 1\nwhile true:\n    y = 1 {1/2} 2\n    x = DistExp(3/(y + 1))\nend\n", ["x", "y"]),
